@@ -48,6 +48,11 @@ package vgirpc
 //@ func decompressBounded
 //@   property C18
 //@   at call io.LimitReader assert [readatmost] arg1 == min(maxOutput + 1, maxI64())
+//@   # what is read to the end is a decoder over the WHOLE raw body, in its whole-input configuration,
+//@   # and what is returned is what that read produced
+//@   at call io.LimitReader assert [wholebody] wholeInputOf(arg0) == data
+//@   at call io.ReadAll#2 assert [wholebody2] wholeInputOf(arg0) == data
+//@   ensures [local_readresult_ret8] result0 == out
 //@   ensures [bounded] result1 == nil && maxOutput > 0 ==> len(result0) <= maxOutput
 //@   ensures [unknown] encoding != "zstd" && encoding != "gzip" ==> typeof(result1) == *unsupportedEncodingError
 
